@@ -109,8 +109,16 @@ class Ctx:
 def lake_build(targets, timeout=1500):
     """Build the given lake targets; returns (ok, log)."""
     env = dict(os.environ)
-    p = subprocess.run(["lake", "build"] + list(targets), cwd=LEAN, env=env,
-                       stdout=subprocess.PIPE, stderr=subprocess.STDOUT, text=True, timeout=timeout)
+    # several checks may run at the same time: two `lake build`s in one directory disturb each other (a driver is unlinked
+    # while it is relinked), so builds are serialised by an advisory lock
+    import fcntl
+    with open(os.path.join(LEAN, ".verif-build.lock"), "w") as lk:
+        fcntl.flock(lk, fcntl.LOCK_EX)
+        try:
+            p = subprocess.run(["lake", "build"] + list(targets), cwd=LEAN, env=env,
+                               stdout=subprocess.PIPE, stderr=subprocess.STDOUT, text=True, timeout=timeout)
+        finally:
+            fcntl.flock(lk, fcntl.LOCK_UN)
     return p.returncode == 0, p.stdout
 
 
